@@ -141,7 +141,9 @@ impl binary::Consumer for Loader {
             spirv::Op::ExtInstImport => self.module.ext_inst_imports.push(inst),
             spirv::Op::MemoryModel => self.module.memory_model = Some(inst),
             spirv::Op::EntryPoint => self.module.entry_points.push(inst),
-            spirv::Op::ExecutionMode => self.module.execution_modes.push(inst),
+            spirv::Op::ExecutionMode | spirv::Op::ExecutionModeId => {
+                self.module.execution_modes.push(inst)
+            }
             spirv::Op::String
             | spirv::Op::SourceExtension
             | spirv::Op::Source
